@@ -1,8 +1,7 @@
-(* Line-protocol driver for the extracted Gallina models (runner/model.ml).
+(* Line-protocol driver for the extracted Gallina models (runner/gen/m_<name>.ml); this text is prepended, after `open M_<name>`, to every driver fragment.
    One request per stdin line, one reply per stdout line; same field conventions as the
    Rust harness: fields separated by single spaces, bytes/text as lowercase hex with "-"
    for empty and "~" for absent, lists comma-separated with "~" for empty, numbers decimal. *)
-open Model
 
 let rec nat_of_int n = if n <= 0 then O else S (nat_of_int (n - 1))
 let rec int_of_nat = function O -> 0 | S n -> 1 + int_of_nat n
@@ -16,28 +15,27 @@ let int_of_n = function N0 -> 0 | Npos p -> int_of_pos p
 let ten = n_of_int 10
 let n_of_dec s =
   let acc = ref N0 in
-  String.iter (fun c -> acc := N.add (N.mul !acc ten) (n_of_int (Char.code c - 48))) s; !acc
+  Stdlib.String.iter (fun c -> acc := N.add (N.mul !acc ten) (n_of_int (Stdlib.Char.code c - 48))) s; !acc
 let dec_of_n n =
   if n = N0 then "0" else begin
-    let b = Buffer.create 24 in
+    let b = Stdlib.Buffer.create 24 in
     let rec go n acc = if n = N0 then acc else
-      let (q, r) = N.div_eucl n ten in go q (Char.chr (48 + int_of_n r) :: acc) in
-    List.iter (Buffer.add_char b) (go n []); Buffer.contents b end
+      let (q, r) = N.div_eucl n ten in go q (Stdlib.Char.chr (48 + int_of_n r) :: acc) in
+    Stdlib.List.iter (Stdlib.Buffer.add_char b) (go n []); Stdlib.Buffer.contents b end
 let z_of_dec s =
-  if String.length s > 0 && s.[0] = '-' then Z.opp (Z.of_N (n_of_dec (String.sub s 1 (String.length s - 1))))
+  if Stdlib.String.length s > 0 && s.[0] = '-' then Z.opp (Z.of_N (n_of_dec (Stdlib.String.sub s 1 (Stdlib.String.length s - 1))))
   else Z.of_N (n_of_dec s)
 let dec_of_z z = match z with
   | Z0 -> "0" | Zpos p -> dec_of_n (Npos p) | Zneg p -> "-" ^ dec_of_n (Npos p)
 
 let bytes_of_hex s =
   if s = "-" || s = "~" then [] else
-  List.init (String.length s / 2) (fun i -> n_of_int (int_of_string ("0x" ^ String.sub s (2 * i) 2)))
+  Stdlib.List.init (Stdlib.String.length s / 2) (fun i -> n_of_int (int_of_string ("0x" ^ Stdlib.String.sub s (2 * i) 2)))
 let hex_of_bytes l =
-  if l = [] then "-" else String.concat "" (List.map (fun b -> Printf.sprintf "%02x" (int_of_n b)) l)
-let list_field f s = if s = "~" then [] else List.map f (String.split_on_char ',' s)
-let hexlist l = if l = [] then "~" else String.concat "," (List.map hex_of_bytes l)
+  if l = [] then "-" else Stdlib.String.concat "" (Stdlib.List.map (fun b -> Stdlib.Printf.sprintf "%02x" (int_of_n b)) l)
+let list_field f s = if s = "~" then [] else Stdlib.List.map f (Stdlib.String.split_on_char ',' s)
+let hexlist l = if l = [] then "~" else Stdlib.String.concat "," (Stdlib.List.map hex_of_bytes l)
 
 
-(* handlers register themselves here: command name -> fields (without the command) -> reply *)
-let handlers : (string, string list -> string) Hashtbl.t = Hashtbl.create 64
-let register name fn = Hashtbl.replace handlers name fn
+(* handlers register themselves in the shared registry: command name -> fields (without the command) -> reply *)
+let register = Registry.register
